@@ -59,3 +59,12 @@ func init() {
 		Rule: "case 0 = exhaustive enumeration of the small sub-space (capacity<=5 quick / <=7 thorough, fill<=2*capacity+1, at most one resize at every position, every (start,count) and recent(count)); every other case = 60 seeded ring-buffer scripts (add, resize, GetEventsFromID, GetRecentEvents) compared with a list-based reference by pointer identity of the records, 20 event-store scripts, and in every 4th case a concurrent stream run (publisher, resizes, subscribers created at random moments); non-trivial = at least one query with start inside the available range; distinct by sha256 of the scripts",
 		Assumptions: []string{"the publisher of the stream runs does ring.Add followed by PublishEvent from one goroutine, exactly as EventSystemImpl's handler goroutine does", "a store batch is compared with the store size in force when its events were stored (a size change takes effect at the next collect)"}})
 }
+
+func init() {
+	driver.Register(&driver.Spec{Prop: "C19", Quick: 800, Thorough: 40000, Batch: 20,
+		Run: func(prop string, seed uint64, idx int, tier string, replayDir string, cmdLog *os.File) *det.CaseResult {
+			return pure.RunC19(seed)
+		},
+		Rule: "case = 12 queue worlds + 8 application worlds + 6 ask scripts + 4 node-collection scripts built from the seed with the real constructors; every world is sorted repeatedly through the real sortQueues/sortApplications (candidates come from Go maps, so every call presents another permutation) and every pair the policy distinguishes must appear in the policy's order in every call; non-trivial = the case had queue pairs the policy distinguishes and tied pairs; distinct by sha256 of the world descriptions",
+		Assumptions: []string{"the sort keys (current priority, fair share from CompUsageRatio(Separately), submission time, pending size) are read with the core's own exported getters: the monitor judges order-independence, not the arithmetic of the keys (that is C18)", "node order is compared on scores recomputed from the current utilisation with a 1e-9 tolerance"}})
+}
